@@ -36,7 +36,7 @@ MODES = ["RAVIART_THOMAS", "CONSTANT_SUBCELL_PROJECTION", "CONSTANT_CELL_PROJECT
 
 def bounds(tier):
     if tier == "quick":
-        return "cost laws and moment bound: grids (3,), (2,2), (1,3), (2,1,2) for all three L1 modes (Raviart-Thomas on <= 4 cells); uniqueness: all 1-D grids up to 8 cells and n x 1 / 1 x n (x 1) up to 6; EMD on 2x2 and 2x3 images; dispatch over 7 method strings"
+        return "cost laws and moment bound: grids (3,), (2,2), (1,3), (2,1,2) for all three L1 modes (Raviart-Thomas on <= 3 cells); uniqueness: all 1-D grids up to 8 cells and n x 1 / 1 x n (x 1) up to 6; EMD on 2x2 and 2x3 images; dispatch over 7 method strings"
     return "cost laws: additionally (3,2), (3,3), (2,2,2) for the cell / sub-cell modes and (3,2), (2,2,1) for Raviart-Thomas; uniqueness: 1-D up to 40 cells, thin grids up to 12"
 
 
@@ -46,7 +46,7 @@ def configs(tier):
     shapes = [[3], [2, 2], [1, 3], [2, 1, 2]] + ([] if q else [[3, 2], [3, 3], [2, 2, 2], [2, 2, 1]])
     for shape in shapes:
         for mode in MODES:
-            if mode == "RAVIART_THOMAS" and int(np.prod(shape)) > (4 if q else 6):
+            if mode == "RAVIART_THOMAS" and int(np.prod(shape)) > (3 if q else 6):
                 continue
             out.append(dict(kind="laws", shape=shape, mode=mode))
             out.append(dict(kind="moment", shape=shape, mode=mode))
@@ -94,6 +94,10 @@ def _install_norm():
             ENGINE.add(y >= 0)
             for a in args:
                 ENGINE.add(z3.And(y >= a, y >= -a))
+            nz = [a for a in args if not (z3.is_rational_value(a) and a.numerator_as_long() == 0)]
+            if len(nz) == 1:
+                # a vector along one axis: its norm is the absolute value (lemma norm_of_axis_aligned_vector)
+                ENGINE.add(y == z3.If(nz[0] >= 0, nz[0], -nz[0]))
             CALLS.append((args, y))
             return SymReal(y)
 
@@ -223,6 +227,9 @@ def body_lemmas(cfg):
     y = n(v)
     S.claim("norm_is_nonnegative_and_dominates_components", S.and_(S.le(0, y), S.and_([S.and_(S.le(a, y), S.le(-a, y)) for a in v])))
     S.claim("norm_is_even", S.eq(n(-v), y))
+    e = np.zeros(k, dtype=object if S.instrumented() else float)
+    e[k - 1] = v[0]
+    S.claim("norm_of_axis_aligned_vector_is_absolute_value", S.eq(n(e), S.max_(v[0], -v[0])))
     S.claim("norm_is_positively_homogeneous", S.eq(n(c * v), c * y))
 
 
@@ -260,6 +267,36 @@ def body_unique(cfg, darsia, shape, dim):
         Df = np.array([[S.tofloat(v) for v in row] for row in np.asarray(D, dtype=object)], dtype=float)
         S.claim("mass_balance_leaves_no_freedom", bool(np.linalg.matrix_rank(Df) == nf))
     S.observe("ustar", ustar)
+    # the cost of that unique flux, independently: quadrature of |(1-p) u_left + p u_right| along the axis
+    if nc <= 4:
+        import darsia.measure.wasserstein as ws
+
+        for mode in MODES:
+            g2, w2 = _solver(darsia, shape, mode)
+            if S.instrumented():
+                _install_norm()
+            cost = w2.l1_dissipation(ustar)
+            if mode == "RAVIART_THOMAS":
+                qp, qw = darsia.quadrature.gauss_reference_cell(dim, "max")
+            elif mode == "CONSTANT_SUBCELL_PROJECTION":
+                qp, qw = darsia.quadrature.reference_cell_corners(dim)
+            else:
+                qp, qw = darsia.quadrature.gauss_reference_cell(dim, 0)
+            qp = np.asarray(qp).reshape(len(qw), dim)
+            tot = 0
+            for cidx in O.cells(shape):
+                fr, fl = O.face_right(ax, cidx, shape), O.face_left(ax, cidx, shape)
+                ur = ustar[fr] if fr is not None else 0.0
+                ul = ustar[fl] if fl is not None else 0.0
+                for q_ in range(len(qw)):
+                    v_ = (1 - qp[q_, ax]) * ul + qp[q_, ax] * ur
+                    tot = tot + qw[q_] * S.max_(v_, -v_)
+            S.claim(f"cost_of_the_unique_flux_equals_independent_quadrature_{mode}", S.eq(cost, vol * tot))
+            if S.instrumented():
+                from symx.core import ENGINE
+
+                ENGINE.abstract_norm = False
+                ENGINE.norm_hook = None
 
 
 def body_dispatch(cfg, darsia):
